@@ -27,6 +27,9 @@ var causes = []struct {
 	{"stop-all", "stopped"},
 	{"user-stop-during-backoff", "stopped"},
 	{"proc-non-converging", "fatal"}, // arch-v2 only
+	// the erroring processor is attached to ONE destination of a fan-out: the
+	// sibling branch may be the one that forwards the rejection
+	{"branch-proc-error-unabsorbed", "fatal"},
 }
 
 func gen(seed int64, tier string, idx int) *pipe.Scenario {
@@ -108,6 +111,22 @@ func gen(seed int64, tier string, idx int) *pipe.Scenario {
 			sc.RecMaxRetries = 2
 		}
 		sc.Steps = []pipe.Step{{AtEvent: 0, Op: "await-recovering"}, {AtEvent: 0, Op: "stop"}}
+	case "branch-proc-error-unabsorbed":
+		sc.Topo.DLQWindow = 1 + g.R.Intn(4)
+		sc.Topo.DLQThresh = 0
+		sc.Topo.Sources = sc.Topo.Sources[:1]
+		sc.Records = sc.Records[:1]
+		for len(sc.Topo.Dests) < 2 {
+			c := rig.ConnSpec{ID: fmt.Sprintf("d%d", len(sc.Topo.Dests))}
+			c.Dst.Seed = g.R.Uint64()
+			sc.Topo.Dests = append(sc.Topo.Dests, c)
+		}
+		a := g.R.Intn(2)
+		p := rig.ProcSpec{ID: "pe"}
+		p.Script.Kind = map[string]string{rig.Lin{Src: "s0", Idx: 3 + g.R.Intn(10)}.String(): rig.PKError}
+		sc.Topo.Dests[a].Procs = append(sc.Topo.Dests[a].Procs, p)
+		// either branch may be the slower one, i.e. the one that votes last
+		sc.Topo.Dests[g.R.Intn(2)].Dst.LatencyUs = []int{[]int{800, 2500, 6000}[g.R.Intn(3)]}
 	case "proc-non-converging":
 		p := rig.ProcSpec{ID: "pn"}
 		p.Script.Hostile = map[int]string{}
